@@ -626,7 +626,7 @@ func pqConcurrent(seed int64, cfg pqengine.Config, nEvents int) []string {
 			}
 		}
 	}()
-	if !watchdog(60*time.Second, wg.Wait) {
+	if !watchdog(25*time.Second, wg.Wait) {
 		s, p, rsv := txfile.VerifLockState(f)
 		fail("producer / consumer do not finish (deadlock?); lock state (%s)", lkString(s, p, rsv))
 		return fails
@@ -642,6 +642,7 @@ func pqConcurrent(seed int64, cfg pqengine.Config, nEvents int) []string {
 }
 
 func runPQStress(rep *Report, r *rand.Rand, n int) {
+	hung := 0
 	cfgs := pqConfigs()
 	for i := 0; i < n; i++ {
 		seed := r.Int63()
@@ -655,6 +656,16 @@ func runPQStress(rep *Report, r *rand.Rand, n int) {
 			rep.violate(Violation{Kind: "oracle", Sig: "pq-concurrent/" + failSig(fails[0]),
 				Detail: fmt.Sprintf("producer/consumer stress (%s, %d events, seed %d): %s", cfg, ne, seed, fails[0]),
 				Replay: map[string]interface{}{"seed": seed, "config": cfg, "events": ne, "failures": fails}})
+			// goroutines that are stuck stay stuck: further runs would only wait for their watchdogs
+			for _, fl := range fails {
+				if strings.Contains(fl, "do not finish") || strings.Contains(fl, "before the deadline") {
+					if hung++; hung >= 2 {
+						rep.count("pq-stress-stopped-after-hangs", 1)
+						return
+					}
+					break
+				}
+			}
 		}
 	}
 }
